@@ -187,9 +187,16 @@ def worker(args: Dict[str, Any]) -> Dict[str, Any]:
     return out
 
 
+# Block names are arbitrary strings and are compared for EQUALITY only.  Hostile pools: names that are shell-glob / regular
+# expression patterns matching one another, prefixes of one another, differing in case or white space only, with
+# separators; a name is never a pattern for another name.
+HOSTILE_NAMES = ["GRL[1]", "GRL1", "GRL*", "GRL", "prw*", "prw_tool", "a?", "ab", "a.", "jets[AntiKt4EMTopo]", "jets", "Jets", "jets ", " jets", "x.y", "x|y", "x", "(x)", "x+", "^x$", "x\\d",
+                 "b{1,2}", "b1", "b2", "tool:cfg", "tool/cfg", "tool cfg", "é", "[!a]", "[a-z]", "%s", "{name}", "{{ x }}", "#x", "'q'", '"q"']
+
+
 def random_blocks(R: random.Random) -> List[Tuple[str, List[str], List[str]]]:
     nn = R.choice([2, 3, 5, 8, 12])
-    names = [f"b{i}" for i in range(nn)]
+    names = [f"b{i}" for i in range(nn)] if R.random() < 0.6 else R.sample(HOSTILE_NAMES, nn)
     R.shuffle(names)
     mode = R.choice(["dag", "dag", "dag", "cycle", "missing", "conflict", "self", "shared"])
     order = list(names)
@@ -289,6 +296,10 @@ def run(ctx: Ctx) -> int:
         reqs.append({"fn": "vf.props.c15:worker", "args": {"mode": "exhaustive", "names": ["a", "b", "c"], "maxlen": 3, "shard": sh, "nshards": nsh}})
     for sh in range(16):
         reqs.append({"fn": "vf.props.c15:worker", "args": {"mode": "exhaustive", "names": ["a", "b"], "maxlen": 4, "shard": sh, "nshards": 16}})
+    # the same bound over names that are patterns for one another (quick: length <= 2 of the triple, thorough: <= 3)
+    for sh in range(16):
+        reqs.append({"fn": "vf.props.c15:worker", "args": {"mode": "exhaustive", "names": ["GRL[1]", "GRL1", "GRL*"], "maxlen": ctx.pick(2, 3), "shard": sh, "nshards": 16}})
+        reqs.append({"fn": "vf.props.c15:worker", "args": {"mode": "exhaustive", "names": ["a?", "ab"], "maxlen": ctx.pick(3, 4), "shard": sh, "nshards": 16}})
     nrand = ctx.pick(16, 64)
     for i in range(nrand):
         reqs.append({"fn": "vf.props.c15:worker", "args": {"mode": "random", "seed": f"{ctx.seed}:c15:{i}", "count": ctx.pick(1500, 8000)}})
@@ -335,7 +346,7 @@ def run(ctx: Ctx) -> int:
     # a block sent twice with the same script, the copy that is processed first (the outermost one) naming no dependencies,
     # next to other blocks that name none either; then further queries in the same process
     for i in range(ctx.pick(6, 40)):
-        names = R.sample([f"b{k}" for k in range(9)], 4)
+        names = R.sample([f"b{k}" for k in range(9)] if i % 2 else HOSTILE_NAMES, 4)
         x, y, z, solo = names
         first = [(x, script_for(x, 0, 2), [y]), (y, script_for(y, 0, 1), []), (z, script_for(z, 0, 3), []), (x, script_for(x, 0, 2), [])]
         ereqs.append({"fn": "vf.props.c15:executor_worker", "args": {"blocks": first, "omit_empty_deps": True, "out": str(ctx.scratch / f"exed{i}")}})
